@@ -16,6 +16,15 @@ def _mut_ty(ty):
     return ty.startswith('&mut') or ty.startswith('*mut')
 
 
+def fn_effect_sites(facts, fn):
+    """[(bb, adt, field, how)] for fn's own body (closures folded in at their creation site)"""
+    fn_effects(facts, fn)
+    return _sites.get((id(facts), fn.path), [])
+
+
+_sites = {}
+
+
 def fn_effects(facts, fn):
     """set of (adt, field, how) for fn itself including the closures it creates (transitively)"""
     key = (id(facts), fn.path)
@@ -23,9 +32,10 @@ def fn_effects(facts, fn):
         return _cache[key]
     _cache[key] = set()      # recursion guard
     pv = Prov(fn)
-    eff = set()
+    eff = _SiteSet()
     for bb in sorted(fn.reachable_blocks()):
         b = fn.blocks[bb]
+        eff.bb = bb
         for s in b['stmts']:
             if s['k'] != 'assign':
                 continue
@@ -78,8 +88,21 @@ def fn_effects(facts, fn):
                 if fn.kind == 'Closure':
                     for uv in ups:
                         eff.add(('$upvar', uv, name))
+    _sites[key] = list(eff.sites)
+    eff = set(eff)
     _cache[key] = eff
     return eff
+
+
+class _SiteSet(set):
+    def __init__(self):
+        super().__init__()
+        self.sites = []
+        self.bb = None
+
+    def add(self, x):
+        super().add(x)
+        self.sites.append((self.bb,) + tuple(x))
 
 
 def effects_on(facts, fn, adt_suffix, field):
